@@ -1011,6 +1011,8 @@ def elem_template(d, gen_id, mode="full"):
     full_tps = f"{data_g}{tps}"
     full_gb = f"{data_g}{gb}"
     D = [x.replace("TPS", tps) for x in D]
+    if data_g:
+        D = [re.sub(rf"\b{n}<{re.escape(tps)}>", f"{n}<{data_g}{tps}>", x) for x in D]
     o = [text]
     w = o.append
     sel_cond = " || ".join(f"attr_name(a) == {lit(x)}@" for x in sel) or "false"
@@ -1078,7 +1080,8 @@ def elem_template(d, gen_id, mode="full"):
         w(f"    //@ loop 0 for_to_while ref: invariant __i0 <= __s0@.len(), ainv_{n}::<{tps}>(awalk_{n}::<{tps}>(__s0@.take(__i0 as int)), {call}), decreases __s0@.len() - __i0")
         w("    //@ loop 0 head: proof { assert(__s0@.take(__i0 as int).drop_last() == __s0@.take(__i0 - 1)); }")
         w("    //@ loop 0 after: proof { assert(__s0@.take(__s0@.len() as int) == __s0@); }")
-        w("    //@ match_str 0")
+        if sel or isinstance(fwd, list):
+            w("    //@ match_str 0")
         w("    //@ replace R13b opt: __err.into() ==> crate::darling::Error::from_syn(__err)")
         for x in D:
             w(x)
@@ -1211,3 +1214,69 @@ def all_supports():
 
 
 CORPORA["supports"] = lambda tier, seed: quick_supports() + ([] if tier == "quick" else all_supports())
+
+
+def random_only(seedlist=range(1, 13)):
+    return [random_struct(random.Random(s * 1000 + i), f"Q{s}_{i}") for s in seedlist for i in range(12)]
+
+
+def random_enum(rng, name):
+    nv = rng.randint(1, 5)
+    vs = []
+    idents = ["Alpha", "BetaTwo", "GammaRay", "Delta", "EpsilonX"]
+    have_word = False
+    for i in range(nv):
+        style = rng.choice(["unit", "unit", "newtype", "struct"])
+        v = variant(idents[i], style)
+        if rng.random() < 0.25:
+            v["rename"] = rng.choice(["renamed_v", "x", "Other"]) + str(i)
+        if rng.random() < 0.2:
+            v["skip"] = True
+        if style == "unit" and not have_word and not v["skip"] and rng.random() < 0.3:
+            v["word"] = True
+            have_word = True
+        if style == "struct":
+            nf = rng.randint(1, 3)
+            fs = []
+            for j in range(nf):
+                ff = field(["one", "two_b", "three"][j])
+                k = rng.choice(["plain", "plain", "default_t", "multiple", "skip", "rename"])
+                if k == "default_t":
+                    ff["default"] = "trait"
+                elif k == "multiple":
+                    ff["multiple"] = True
+                elif k == "skip":
+                    ff["skip"] = True
+                elif k == "rename":
+                    ff["rename"] = f"r_{j}"
+                fs.append(ff)
+            v["fields"] = fs
+        vs.append(v)
+    return enum_desc(name, vs, rename_all=rng.choice(RULES), allow_unknown=rng.random() < 0.3)
+
+
+def random_elem(rng, name):
+    trait = rng.choice(["FromDeriveInput", "FromField", "FromAttributes", "FromVariant", "FromTypeParam"])
+    avail = {"FromDeriveInput": ["ident", "vis", "generics", "attrs", "data"], "FromField": ["ident", "vis", "ty", "attrs"], "FromAttributes": ["attrs"],
+             "FromVariant": ["ident", "discriminant", "fields", "attrs"], "FromTypeParam": ["ident", "bounds", "default", "attrs"]}[trait]
+    magic = [m for m in avail if rng.random() < 0.6]
+    fwd = rng.choice([None, "all", ["doc"], ["doc", "allow"], []])
+    if "attrs" in magic and fwd is None:
+        fwd = rng.choice(["all", ["doc"], []])       # an `attrs` field without forward_attrs is a declaration error (C10)
+    attrs = rng.sample(["foo", "bar", "ns::baz"], rng.randint(0 if trait != "FromAttributes" else 1, 3))
+    base = random_struct(rng, name)
+    fields = [f for f in base["fields"] if not f["flatten"]][:3] or [field("only")]
+    return elem_desc(name, trait, fields, attrs, forward=fwd, magic=magic, rename_all=base["rename_all"], allow_unknown=base["allow_unknown"],
+                     cdefault=base["cdefault"], cpost=base["cpost"])
+
+
+CORPORA["enums"] = lambda tier, seed: quick_enums() + ([] if tier == "quick" else [random_enum(random.Random(seed * 977 + i), f"ZE{i}") for i in range(40)])
+CORPORA["elems"] = lambda tier, seed: quick_elems() + ([] if tier == "quick" else [random_elem(random.Random(seed * 991 + i), f"ZD{i}") for i in range(40)])
+
+
+def random_enums_only(seedlist=range(1, 7)):
+    return [random_enum(random.Random(s * 977 + i), f"QE{s}_{i}") for s in seedlist for i in range(12)]
+
+
+def random_elems_only(seedlist=range(1, 7)):
+    return [random_elem(random.Random(s * 991 + i), f"QD{s}_{i}") for s in seedlist for i in range(12)]
